@@ -130,7 +130,7 @@ def to_sessions(recs, rng, targets=("engine", "pool"), chain=1, sample=None, btp
                 sid += 1
                 decl = [{"name": ru["name"], "sal": ru["sal"], "tpl": tpls[ru["name"]], "fk": fks[ru["name"]],
                          "nosal": trng.random() < 0.5} for ru in rules]
-                if not any(c["method"] == "ExecuteDAGModel" for c in calls):
+                if not any(c["method"] == "ExecuteDAGModel" or len(set(c.get("names") or [])) != len(c.get("names") or []) for c in calls):
                     for d in decl:      # never where one rule may run twice at once (its counter would be the caller's data race)
                         if trng.random() < 0.25:
                             d["rk"] = "loop"
